@@ -34,7 +34,7 @@ func init() {
 		Explanation: "Structural necessary conditions of total decoding, decided for every decoder path of the library: (R-ALLOC) every allocation sized by input is behind a limit check whose failing branch leaves, and cannot be negative; " +
 			"(R-INDEX) every index that input can choose - directly, via a struct field, or via an unvalidated decoded value used later - is bounds-checked, masked to fit, or validated; " +
 			"(R-TERM) every input-dependent loop is bounded or consumes input and leaves on error; (R-STICKY) errors reach the caller.",
-		NotCovered: "panics other than out-of-range index / make (nil dereference, division by zero) in later queries on decoded-but-degenerate geometry; memory use below the documented limits; behaviour of io.Reader implementations.",
+		NotCovered:  "panics other than out-of-range index / make (nil dereference, division by zero) in later queries on decoded-but-degenerate geometry; memory use below the documented limits; behaviour of io.Reader implementations.",
 		Assumptions: []string{"64-bit int (GOARCH with 64-bit int) for the narrower-unsigned-conversion argument", "the sanitizer table (CellID.IsValid) states the precondition of face-table lookups"},
 	}
 }
@@ -89,7 +89,7 @@ func init() {
 		Rules: []string{"R-ORDER", "R-COMPONENT", "R-SPECIAL"},
 		Explanation: "Soundness of the interval algebra with respect to point membership, decided exhaustively over the order types of the operands for the comparison-only code of r1.Interval and s1.Interval " +
 			"(abstract interpretation of the source over weak orderings), plus the component-wise composition of the rectangle operations.",
-		NotCovered: "Expanded, Project, Center, Length, ApproxEqual, chord-angle arithmetic and all of Cap (genuine arithmetic); s2.Rect operations with polar/antimeridian special cases beyond Contains/Intersects/Union.",
+		NotCovered:  "Expanded, Project, Center, Length, ApproxEqual, chord-angle arithmetic and all of Cap (genuine arithmetic); s2.Rect operations with polar/antimeridian special cases beyond Contains/Intersects/Union.",
 		Assumptions: []string{"operands of s1.Interval lie in [-Pi, Pi] (the type's documented domain)", "the point-set specification written in orderspec.go (closed intervals; -Pi identified with Pi; empty = (Pi,-Pi))"},
 	}
 }
@@ -186,6 +186,7 @@ func init() {
 		}
 		Properties[prop] = p
 	}
+	addRules("C01", "R-SAMEFACE")
 	addRules("C02", "R-CONSTREL", "R-SOSDERIVE")
 	addRules("C03", "R-VERTEXSYM", "R-CONSTREL")
 	addRules("C04", "R-RESET", "R-FLAGS")
